@@ -126,6 +126,12 @@ def run():
             files.append(b)
         runs = _run_files(ego, env, sd, files, "b", both_opt=thorough)
         suspects, nlines, nrun, firstobs = [], 0, 0, None
+        late = [(b, opt, p) for b, opt, (rc, so, se), p in runs if rc is None]
+        if late:        # an overloaded machine, not a verdict: one more attempt, alone, then give up
+            again = vf.run_many([([ego, "run", "-o", opt, p], None, sd, env) for b, opt, p in late], nproc=4, timeout=600)
+            if any(r[0] is None for r in again):
+                raise vf.NoVerdict("%d generated programs did not finish within 600 s" % sum(r[0] is None for r in again))
+            runs = [x for x in runs if x[2][0] is not None] + [(b, opt, r, p) for (b, opt, p), r in zip(late, again)]
         for b, opt, (rc, so, se), p in runs:
             obs = egoctl.observe(rc, so, se, len(b))
             if firstobs is None and rc == 0:
@@ -134,26 +140,29 @@ def run():
                 nrun += 1
                 nlines += len(c["out"]) + 1
                 if not egoctl.agree(c, o):
-                    suspects.append((c, opt))
+                    suspects.append((c, opt, {"observed_in_shared_process": o, "process_rc": rc, "stderr": se[-400:],
+                                              "shared_with": [x["key"] for x in b], "file": egoctl.render(b)}))
         # a case that differs inside a shared process is re-run alone before it is blamed
         seen, alone = set(), []
-        for c, opt in suspects:
+        for c, opt, ctx in suspects:
             if (c["key"], opt) not in seen and len(alone) < 300:
                 seen.add((c["key"], opt))
-                alone.append((c, opt))
+                alone.append((c, opt, ctx))
         if alone:
             jobs = []
-            for n, (c, opt) in enumerate(alone):
+            for n, (c, opt, ctx) in enumerate(alone):
                 p = os.path.join(sd, "s%d.ego" % n)
                 open(p, "w").write(egoctl.render([c]))
                 jobs.append(([ego, "run", "-o", opt, p], None, sd, env))
-            for (c, opt), (rc, so, se) in zip(alone, vf.run_many(jobs, timeout=60)):
+            for (c, opt, ctx), (rc, so, se) in zip(alone, vf.run_many(jobs, timeout=300)):
                 o = egoctl.observe(rc, so, se, 1)[0]
+                if rc is None:
+                    raise vf.NoVerdict("a generated program did not finish within 300 s: " + c["key"])
                 if egoctl.agree(c, o):
                     chk.violation("interference/" + ("+".join(sorted(c["feat"])) or "plain"),
                                   "a case agrees with the specification when run alone but not after other cases in the "
                                   "same process (state left behind by an earlier case): %s" % c["key"],
-                                  {"case": c, "opt": opt, "wrapped": True})
+                                  {"case": c, "opt": opt, "wrapped": True, "context": ctx})
                 else:
                     i, e, a = egoctl.first_diff(c, o)
                     chk.violation(_key(c, o), "program [%s] (optimizer %s): specification expects line %d = %s and end '%s', "
@@ -170,6 +179,8 @@ def run():
         for b, opt, (rc, so, se), p in _run_files(ego, env, sd, [[c] for c in solo], "u", wrapped=False):
             c = b[0]
             o = egoctl.observe(rc, so, se, 1)[0]
+            if rc is None:
+                raise vf.NoVerdict("a generated program did not finish in time: " + c["key"])
             nrun += 1
             nlines += len(c["out"]) + 1
             if not egoctl.agree(c, o):
